@@ -58,10 +58,13 @@ prop("C11", level="proof",
 prop("C03", level="proof",
      level_text="Unbounded proof at the level of the reported PAIRS: the three searches return exactly the property's violating sets (both inclusions; in particular every "
                 "reported pair has its subject-side endpoint inside the subject's own set), the detector buckets are exactly the images of those sets in user order. "
-                "The message TEXT (lines <-> records) is covered by a bounded stand-in that parses real messages and compares them with the reference violating set.",
+                "Message RECORDS (string view): _create_other_violating_dependencies_message produces exactly one record (quoted importer, verb, quoted importee) per pair of the "
+                "violating set and nothing else; _get_violating_rule_subjects_and_objects groups the missing-import pairs per subject with exactly its own objects. "
+                "The rendering of records into sorted, de-duplicated text lines is covered by a bounded stand-in that parses real messages and compares them with the reference violating set.",
      level_note=_RULE_NOTE + " Bounded (not proved): rendering of records into message lines (message_generator.py).",
      explanation="Search/detector postconditions are the violating sets; message text compared natively.",
-     roots=["Rule.assert_applies", "RuleViolationBaseDetector.get_rule_violation"], bounded=[_b("rules", "bounded_reports")], trusted_base=_TB)
+     roots=["Rule.assert_applies", "RuleViolationBaseDetector.get_rule_violation", "RuleViolationMessageGenerator._create_other_violating_dependencies_message",
+            "RuleViolationMessageGenerator._get_violating_rule_subjects_and_objects"], bounded=[_b("rules", "bounded_reports")], trusted_base=_TB)
 prop("C13", level="proof",
      level_text="Unbounded proof for module rules: Rule.assert_applies raises ImproperlyConfigured / RuleInconsistency / ImpossibleMatch / NetworkXError exactly in the "
                 "incomplete, contradictory, unmatched-regex and unknown-name cases (exact raises-iff contracts down to the graph searches), so none of them yields a verdict; "
